@@ -1024,3 +1024,22 @@ NOT_BUILT = {
 }
 for _pid, _spec in REGISTRY.items():
     _spec['level'] = 'proof' if _spec.get('obligations') else 'exploration'
+
+
+def _load_obligations():
+    """obligations of a property = the theorems of coq/Properties/<id>.v; clauses the file declares as
+    UNDISCHARGED (resting on the correspondence only) are reported in the evidence"""
+    import re
+    for pid, spec in REGISTRY.items():
+        f = os.path.join(ROOT, "coq", "Properties", pid + ".v")
+        if not os.path.exists(f):
+            continue
+        src = open(f).read()
+        und = re.findall(r"UNDISCHARGED:\s*(.*?)\*\)", src, flags=re.S)
+        src_nc = re.sub(r"\(\*.*?\*\)", "", src, flags=re.S)
+        spec['obligations'] = re.findall(r"^\s*(?:Theorem|Corollary)\s+(\w+)", src_nc, flags=re.M)
+        spec['undischarged_note'] = [" ".join(u.split()) for u in und]
+        spec['level'] = 'proof' if spec['obligations'] else 'exploration'
+
+
+_load_obligations()
